@@ -24,6 +24,20 @@ def pvar(h):
     return math.fsum((x - m) ** 2 for x in h) / len(h)
 
 
+def var_matches(got, hist):
+    """Population variance floored at 1e-3.  The tolerance is that of a numerically sound evaluation (two-pass or
+    Welford): a few hundred ulps of  scale * sqrt(var), not of scale^2 - the one-pass E[x^2]-mean^2 formula, which
+    cancels when the rewards ride on a large constant, is outside it."""
+    v = pvar(hist)
+    scale = max(abs(x) for x in hist) if hist else 0.0
+    tol = 1e-9 * max(v, MINVAR) + 400 * 2.220446049250313e-16 * max(scale, 1.0) * math.sqrt(max(v, 0.0)) + 1e-300
+    want = max(v, MINVAR)
+    if abs(got - want) <= tol:
+        return True
+    # at the floor: either side of it within tolerance
+    return abs(v - MINVAR) <= tol and abs(got - MINVAR) <= tol
+
+
 def same_point(a, b):
     return isinstance(a, list) and isinstance(b, list) and len(a) == len(b) and all(float(x) == float(y) for x, y in zip(a, b))
 
@@ -215,9 +229,9 @@ class C04(Oracle):
             if not close(float(n.get_mean_reward()), m, scale=scale):
                 ctx.fail("C04", "ledger-mean", "%s: mean of %s is %s, history gives %s" % (k, what, fhex(n.get_mean_reward()), fhex(m)))
             if k == "VHCT":
-                v = max(pvar([float(x) for x in led.list]), MINVAR)
-                if not close(float(_attr(n, "variance")), v, scale=scale * scale):
-                    ctx.fail("C04", "ledger-variance", "VHCT: variance of %s is %s, history gives %s" % (what, fhex(n.variance), fhex(v)))
+                if not var_matches(float(_attr(n, "variance")), [float(x) for x in led.list]):
+                    ctx.fail("C04", "ledger-variance", "VHCT: variance of %s is %s, history gives %s" % (
+                        what, fhex(n.variance), fhex(max(pvar([float(x) for x in led.list]), MINVAR))))
 
     def _single(self, ag, k, changed, before, now, p, r, credit):
         ctx = self.ctx
@@ -569,6 +583,27 @@ def _leaf(n):
     return n.get_children() is None
 
 
+def thoo_bounds(n, nu, rho, v):
+    """Admissible values of ceil((ln(n)/2 - ln(1/nu)) / ln(1/rho)).  When the real number is an integer k *exactly*
+    (sqrt(n) * nu == rho^-k in rational arithmetic) and no floating-point evaluation of the formula lands above k,
+    the bound is k and nothing else; otherwise a value within 1e-9 of an integer admits both neighbours."""
+    from fractions import Fraction
+    out = ceil_set(v)
+    k = round(v)
+    if len(out) > 1 and abs(k) <= 60:
+        try:
+            lhs = Fraction(int(n)) * Fraction(nu) ** 2
+            rhs = Fraction(rho) ** (-2 * k)
+            if lhs == rhs:
+                import numpy as _np
+                v2 = float((_np.log(n) / 2 - _np.log(1 / nu)) / _np.log(1 / rho))
+                if v <= k and v2 <= k:
+                    return {float(k)}
+        except (ZeroDivisionError, OverflowError, ValueError):
+            pass
+    return out
+
+
 class TreeOracleBase(Oracle):
     """Shared per-agent parameter handling for C05 / C06."""
 
@@ -840,9 +875,14 @@ class C06(TreeOracleBase):
                         ag["kind"], n.get_visited_times(), n.get_u_value(), n.get_b_value()))
         was_leaf = (tsn is None) or tsn.children is None or (grew and exps[0][0] is tsn and tsn.expansions == 1)
         h = tgt.get_depth()
+        if ag["kind"] == "VHCT":
+            # the threshold is scaled by the variance recorded for the cell: it has to be that of the cell's history
+            if not var_matches(float(_attr(tgt, "variance")), [float(x) for x in self.hist(tgt)]):
+                ctx.fail("C06", "tau-variance", "VHCT: the variance that scales the threshold of the pulled cell is %s, its reward history gives %s" % (
+                    fhex(tgt.variance), fhex(max(pvar([float(x) for x in self.hist(tgt)]), MINVAR))))
         if ag["kind"] == "T_HOO":
             v = (math.log(P["n"]) / 2 - math.log(1 / P["nu"])) / math.log(1 / P["rho"])
-            bounds = ceil_set(v)
+            bounds = thoo_bounds(P["n"], P["nu"], P["rho"], v)
             dec = {was_leaf and h <= b for b in bounds}
             if grew not in dec:
                 ctx.fail("C06", "expanded-too-late" if not grew else "expanded-too-early",
